@@ -181,6 +181,23 @@ class Unit:
         self.rule_hits.append((name, count))
         return count
 
+    def pub_fields(self, struct_name, expect_min=0):
+        """R8: make every field of the named struct `pub` (visibility only; specs must be able to
+        mention private fields)."""
+        m = re.search(r'struct ' + re.escape(struct_name) + r'\b[^{;]*\{', self.text)
+        if not m:
+            raise ExtractError('unit %s: struct %s not found for R8' % (self.name, struct_name))
+        s = Src('<unit>', self.text)
+        bo = m.end() - 1
+        bc = s.match_close(bo)
+        body = self.text[bo + 1:bc]
+        new, n1 = re.subn(r'(?m)^(\s+)(?!pub\b)(\w+\s*:)', r'\1pub \2', body)
+        new, n2 = re.subn(r'pub\(crate\)\s+', 'pub ', new)
+        if n1 + n2 < expect_min:
+            raise ExtractError('unit %s: R8 on %s changed %d fields' % (self.name, struct_name, n1 + n2))
+        self.text = self.text[:bo + 1] + new + self.text[bc:]
+        self.rule_hits.append(('R8:pub-fields-' + struct_name, n1 + n2))
+
     def expand_derive_default(self, struct_name):
         """R27: `#[derive(.., Default, ..)]` on a struct with named fields is replaced by the impl
         rustc's derive generates (every field Default::default()), so that it can carry a contract."""
@@ -341,6 +358,46 @@ class Unit:
         header = '|%s| -> (%s) %s ' % (typed_params, ret, spec)
         self.text = self.text[:a] + header + body + self.text[j:]
         self.rule_hits.append(('R18:closure@' + self.fnkey(fnref), 1))
+
+    def after_stmt(self, fnref, start_regex, text, nth=0, count=1):
+        """Insert text after the statement that BEGINS at the match of start_regex (the end is the
+        next `;` at the same nesting depth), whatever the rest of the statement looks like."""
+        s, p, bo, bc = self._fn_span(fnref)
+        ms = list(re.finditer(start_regex, s.code[bo:bc], re.S))
+        if len(ms) != count:
+            raise ExtractError('unit %s: statement %r in %s matched %d times, expected %d' % (self.name, start_regex, fnref, len(ms), count))
+        i = bo + ms[nth].start()
+        depth = 0
+        while i < bc:
+            ch = s.code[i]
+            if ch in '([{':
+                depth += 1
+            elif ch in ')]}':
+                depth -= 1
+            elif ch == ';' and depth == 0:
+                break
+            i += 1
+        self.text = self.text[:i + 1] + '\n' + text + '\n' + self.text[i + 1:]
+
+    def at_block_end(self, fnref, header_regex_, text, which='then', nth=0, count=1):
+        """Insert text as last statement of the block that follows the header matched by
+        header_regex_ (e.g. an `if let ... =` header), or of its `else` block.  Anchoring on the
+        control structure instead of on the statements inside the block keeps proof hints in
+        place when those statements change."""
+        s, p, bo, bc = self._fn_span(fnref)
+        ms = list(re.finditer(header_regex_, s.code[bo:bc], re.S))
+        if len(ms) != count:
+            raise ExtractError('unit %s: block header %r in %s matched %d times, expected %d' % (self.name, header_regex_, fnref, len(ms), count))
+        hb = s.body_open(bo + ms[nth].start())
+        he = s.match_close(hb)
+        if which == 'else':
+            m = re.match(r'\s*else\s*\{', s.code[he + 1:])
+            if not m:
+                raise ExtractError('unit %s: no else block after %r in %s' % (self.name, header_regex_, fnref))
+            hb = he + 1 + m.end() - 1
+            he = s.match_close(hb)
+        # a block whose last expression is a value would change meaning; only statement blocks here
+        self.text = self.text[:he] + text + '\n' + self.text[he:]
 
     def replace_in(self, fnref, name, pattern, repl, expect=1):
         s, p, bo, bc = self._fn_span(fnref)
